@@ -39,6 +39,24 @@ CHECKS = {
         "Tied to the code: for slice sizes 4, 8, 12 (64 sampled) x lengths m*S+{0,1,S-1} x content {random, low-entropy, duplicate slices}: EVERY edit position x insertion/deletion lengths {1,2,S-1,S,S+1,2S+3} (~9900 Verify runs) vs the model, a content-blind oracle for random content, and sampled Repairs with exactly as many blocks as unusable slices.",
    technique="Rocq proof: linearity of the bitwise CRC register (rolling identity for all lengths) + induction over the greedy scan; exhaustive edit-position differential correspondence check",
    design="6/C16", note=NOTE + "hash/crc32's IEEETable is modelled as the 8-fold register shift (its definition)."),
+ "C06": dict(
+   cat="proof",
+   text="Theorems (Props/C06.v, closed; md5's 16-byte result length is an explicit premise): the byte-level packet loop of the reader model on any back-to-back sequence of well-formed packets is the fold of the per-packet step over the packets of the expected recovery set (others are skipped wherever they stand); ORDER AND DUPLICATION DO NOT MATTER - two files made of the same SET of packets, in any order, with any multiplicities and any interleaved foreign-set or unknown-type packets, load to observationally equivalent states (same main packet, file descriptions, checksum lists, recovery block per exponent), for volumes and for the index file; the usable-block count = number of distinct exponents loaded, however numbered and distributed; volume discovery matches prefix and suffix literally. "
+        "Tied to the code: sets written by an independent Python PAR 2.0 writer (from the specification; byte-identical to gopar in the canonical layout) in ~160 free layouts per run - permuted/duplicated packets, foreign and unknown packets, exponent sets {0},{5,17,1000},{2999},{300,2}.., 1-4 recovery files named base.<anything>.par2, base names with [ ] * ? \\ { and spaces on real directories, sub-directory names - x damage; predicate: all blocks found, Repair restores; impl = model. The pinned tree failed for glob metacharacters: fixed in /repo.",
+   technique="Rocq proof: membership characterisation of the packet-loop fold (order/duplication invariance) + distinct-exponent counting; independent-writer layout-randomised correspondence check",
+   design="6/C06", note=NOTE),
+ "C13": dict(
+   cat="proof",
+   text="Theorems (Props/C13.v, closed): over ALL file-system states (every damaged, truncated, emptied, garbage, deleted or half-written archive is one) and all fault schedules, the PAR2 Verify model never panics; 'no repair needed' implies all protected files match the recorded length and hashes; Repair changes only protected paths and only by completed writes of data matching both recorded hashes. NOT yet proved: that the PAR2 Repair model never panics for every state (the coder path), and the PAR1 statements; these rest on the enumerated grid. "
+        "Tied to the code by an ENUMERATED grid (~9500 cases per run): truncation at every packet boundary, every byte of every packet header (every byte of the index) and sampled payload offsets; every bit of magic/length and two bits per byte of the other header fields of the first packet of each type; emptied/garbage/appended/deleted files, every subset of deleted archive files, every prefix of Create's write sequence with the last file torn at and inside packet boundaries; data intact or one file missing; Verify+Repair under an address-space limit with allocation measured; predicates: no crash, usable <= present, clean => intact, only originals written; impl = model. Four crashes of the pinned tree found this way were fixed in /repo.",
+   technique="Rocq proof: no-panic and truthfulness theorems quantified over all file-system states; enumerated truncation/bit-flip/interrupted-write grid as correspondence check",
+   design="6/C13", note=NOTE),
+ "C19": dict(
+   cat="proof",
+   text="Theorems (Props/C19.v, closed): for every archive state the PAR2 Verify model never panics and Repair never writes data that fails the archive's own file hashes, length included (C02's theorem). NOT yet proved: no-panic of the Repair model's coder path for every state; the allocation bound is measured, not proved. "
+        "Tied to the code by an ENUMERATED re-checksummed grid (~580 cases): an independent writer emits sets whose declared fields are overridden BEFORE ids, set id and packet hashes are computed - slice size and recovery count at boundary values up to 2^64-1 (with and without consistent checksum lists), unsorted/duplicate/unknown ids, truncated main body, file lengths at boundaries and slice multiples, wrong hashes, hostile names, checksum lists too short/long, exponents 0..65536/2^31/2^32-1, wrong block sizes, duplicate/wrong recovery data, recovery packet in the index, removal/duplication of every packet type (thorough: pairs) x four data states; no crash, bounded allocation (bytes allocated measured per case), nothing but protected content written; impl = model. Five crashes of the pinned tree were fixed; the coder sized by the highest exponent is a recorded known finding.",
+   technique="Rocq proof: hash-guarded writes for all states; enumerated re-checksummed field-boundary grid with allocation measurement as correspondence check",
+   design="6/C19", note=NOTE + "Exponents above 4000 and accepted slice sizes above 64 KiB run on the implementation only (the extracted model's list-based tables make them too slow)."),
  "C07": dict(
    cat="proof",
    text="Theorems (Props/C07.v, closed): for the model of rsec16 (Cauchy and PAR2-Vandermonde parity matrices, GenerateParity, ReconstructData with the lowest-numbered available parity rows, augmented-matrix row reduction from C11) and ANY well-formed parity matrix, any data, any erasure masks: the result is the original data, or not-enough-parity, or singular - never a panic and never success with different data; not-enough-parity exactly when available parity < missing data; nothing missing => Ok without touching parity; both constructors yield well-formed matrices within the documented limits. "
